@@ -85,11 +85,11 @@ def run_sequential(case):
             return B, "cannot locate the request's position any more"
         try:
             if e["op"] == "insert":
-                ctx.insert_at(target, off, emodify.make_patch(e["asm"]))
+                ctx.insert_at(target, off, emodify.make_patch(e["asm"]) if "asm" in e else bytes(e["bytes"]))
             elif e["op"] == "replace":
                 if off + e["len"] > target.size:
                     return B, "replaced range no longer lies in one block"
-                ctx.replace_at(target, off, e["len"], emodify.make_patch(e["asm"]))
+                ctx.replace_at(target, off, e["len"], emodify.make_patch(e["asm"]) if "asm" in e else bytes(e["bytes"]))
             else:
                 if off + e["len"] > target.size:
                     return B, "deleted range no longer lies in one block"
@@ -234,11 +234,39 @@ def check_case(ctx, case):
         ctx.violation("C09:batch-differs-from-sequential", "one apply() and one-at-a-time application differ at %s" % (irdump.diff_paths(c1, c2)[:4],), case)
 
 
+def aim_at_cached_references(case, rng):
+    """several requests in one block that carries an end-of-block label: the first one leaves the label held by the
+    cache only (delete + re-join), the later ones split or edit the block again"""
+    text = case["text"]
+    cands = [i for i, d in enumerate(text) if d["kind"] == "code" and len(d["insns"]) >= 3]
+    if not cands:
+        return case
+    i = rng.choice(cands)
+    d = text[i]
+    if not any(y.get("at_end") for y in d["syms"]):
+        d["syms"].append({"name": "EE%d" % i, "at_end": True})
+    offs = emodify.block_layout(d)
+    k = rng.randrange(1, len(d["insns"]) - 1)
+    mine = [{"op": "delete", "block": i, "off": offs[k], "len": offs[k + 1] - offs[k]}]
+    tail = rng.choice([{"op": "insert", "block": i, "off": offs[-1], "bytes": [0xAA, 0xBB]},
+                       {"op": "insert", "block": i, "off": offs[-1], "asm": ".byte 1, 2"},
+                       {"op": "insert", "block": i, "off": offs[-1], "asm": "ret"},
+                       {"op": "insert", "block": i, "off": offs[-1], "asm": "movl $7, %eax\nret"},
+                       {"op": "insert", "block": i, "off": offs[-2], "asm": "nop"}])
+    if tail["off"] > offs[k]:
+        mine.append(tail)
+    case["edits"] = [e for e in case["edits"] if e["block"] != i or e.get("all") is not None] + mine
+    return case
+
+
 def run(ctx):
     for c in LE.load_corpus():
         check_case(ctx, c)
-    for _ in range(ctx.budget(600, 15000)):
-        check_case(ctx, emodify.gen_case(ctx.rng, cfg_domain=True))
+    for n in range(ctx.budget(600, 15000)):
+        case = emodify.gen_case(ctx.rng, cfg_domain=True)
+        if n % 4 == 0:
+            case = aim_at_cached_references(case, ctx.rng)
+        check_case(ctx, case)
 
 
 def replay(ctx, payload):
